@@ -1132,6 +1132,130 @@ theorem run_ne (cfg : Cfg) : ∀ (is : List In) (s : St), NonEmptyBufs s.wq → 
   | [], _, h => h
   | i :: is, s, h => run_ne cfg is _ (step_ne cfg s i h)
 
+/-! ## `accepted` is exactly the list of non-empty payloads of the Send commands, in command order -/
+
+/-- the payloads of the Send commands of a history, in order (`send` does not enqueue `n == 0`) -/
+def sentPayloads : List In → List Bytes
+  | [] => []
+  | .cmdSend p _ :: is => if p.isEmpty then sentPayloads is else p :: sentPayloads is
+  | _ :: is => sentPayloads is
+
+@[simp] theorem enqueueTail_acceptedRev (cfg : Cfg) (s : St) (p : Bytes) :
+    (enqueueTail cfg s p).1.acceptedRev = s.acceptedRev := by
+  unfold enqueueTail
+  simp only
+  split
+  · split <;> simp
+  · simp
+
+theorem doSend_acceptedRev (cfg : Cfg) (s : St) (p : Bytes) (a : WAns) :
+    (doSend cfg s p a).1.acceptedRev = p :: s.acceptedRev := by
+  unfold doSend
+  simp only
+  split
+  · rfl
+  · split
+    · simp
+    · split
+      · split
+        · split <;> simp [noteWrite]
+        · simp [noteWrite]
+        · simp [noteWrite]
+      · simp
+
+@[simp] theorem writePending_acceptedRev (cfg : Cfg) (s : St) (ws : List WAns) :
+    (writePending cfg s ws).1.acceptedRev = s.acceptedRev := by
+  unfold writePending
+  simp only
+  split <;> simp
+
+theorem readAvail_acceptedRev (cfg : Cfg) : ∀ (rs : List RAns) (s : St),
+    (readAvail cfg s rs).1.1.acceptedRev = s.acceptedRev
+  | [], _ => rfl
+  | a :: rest, s => by
+    unfold readAvail
+    simp only
+    split
+    · rw [readAvail_acceptedRev cfg rest]
+    · rfl
+    · simp
+    · simp
+    · simp
+
+theorem driveHandshake_acceptedRev (cfg : Cfg) (s : St) (h : HAns) (rs : List RAns) :
+    (driveHandshake cfg s h rs).1.1.1.acceptedRev = s.acceptedRev := by
+  unfold driveHandshake
+  split
+  · simp [readAvail_acceptedRev]
+  · simp
+  · simp
+  · simp
+
+theorem onSessionIo_acceptedRev (cfg : Cfg) (s : St) (ev : Ev) (rs : List RAns) (ws : List WAns) :
+    (onSessionIo cfg s ev rs ws).1.acceptedRev = s.acceptedRev := by
+  unfold onSessionIo
+  split
+  · rfl
+  · split
+    · simp
+    · have h1 : (if ev.inn = true then (readAvail cfg s rs).1 else (s, [])).1.acceptedRev = s.acceptedRev := by
+        split
+        · exact readAvail_acceptedRev cfg rs s
+        · rfl
+      simp only
+      generalize (if ev.inn = true then (readAvail cfg s rs).1 else (s, [])) = r1 at h1 ⊢
+      split
+      · exact h1
+      · split
+        · simpa using h1
+        · exact h1
+
+theorem connectCheck_acceptedRev (s : St) (c : CAns) : (connectCheck s c).1.acceptedRev = s.acceptedRev := by
+  unfold connectCheck
+  split
+  · rfl
+  · split
+    · rfl
+    · split
+      · rfl
+      · rfl
+      · simp
+
+theorem onSession_acceptedRev (cfg : Cfg) (s : St) (ev : Ev) (soOk : Bool) (c : CAns) (h : HAns)
+    (rs : List RAns) (ws : List WAns) : (onSession cfg s ev soOk c h rs ws).1.acceptedRev = s.acceptedRev := by
+  unfold onSession
+  split
+  · rfl
+  · split
+    · simp
+    · simp only
+      split
+      · split
+        · rw [onSessionIo_acceptedRev, driveHandshake_acceptedRev]
+        · exact driveHandshake_acceptedRev cfg s h rs
+      · split
+        · split
+          · rw [onSessionIo_acceptedRev]; simp
+          · exact onSessionIo_acceptedRev cfg s ev rs ws
+          · simp
+        · exact onSessionIo_acceptedRev cfg s ev rs ws
+
+theorem run_accepted (cfg : Cfg) : ∀ (is : List In) (s : St),
+    (run cfg s is).1.accepted = s.accepted ++ sentPayloads is
+  | [], s => by simp [run, sentPayloads]
+  | i :: is, s => by
+    simp only [run]
+    rw [run_accepted cfg is]
+    cases i with
+    | cmdSend p a =>
+      show (if p.isEmpty then (s, []) else doSend cfg s p a).1.accepted ++ _ = _
+      by_cases hp : p.isEmpty
+      · simp [hp, sentPayloads]
+      · simp [hp, sentPayloads, St.accepted, doSend_acceptedRev]
+    | cmdClose w => simp [step, sentPayloads]
+    | connectCheck c => simp [step, sentPayloads, St.accepted, connectCheck_acceptedRev]
+    | event ev soOk c h rs ws => simp [step, sentPayloads, St.accepted, onSession_acceptedRev]
+
 /-! ## T5: the command queue under `_cmdMutex` -/
 namespace Enq
 
